@@ -3,4 +3,9 @@ HARNESSES = [
     COMMON["aead"]("seal_layout12", 2, [(17, "quick"), (40, "quick")]),
     COMMON["aead"]("seal_layout13", 4, [(1, "quick"), (40, "quick")]),
 ]
-PROPERTY = dict(level="model_checking", explanation="", bounds="", outside="", assumptions=[])
+PROPERTY = dict(level='model_checking',
+    claim='Seal side of the record protection glue follows RFC 5288 / RFC 8446 5.2-5.3: nonce, AAD, ciphertext followed by a 16-byte tag, sequence number advanced by one.',
+    bounds='record lengths 1..40 enumerated',
+    outside='interoperation with an independent stack cannot be a solver query; PRF / HKDF-label / key-schedule / Finished call-trace equivalence (C10.a/b) not yet encoded',
+    explanation='Seal side of the record protection glue follows RFC 5288 / RFC 8446 5.2-5.3: nonce, AAD, ciphertext followed by a 16-byte tag, sequence number advanced by one.',
+    assumptions=[])
